@@ -7,7 +7,14 @@ type Seq uint64
 var seq uint64
 
 func Set(s Seq) {
-	atomic.CompareAndSwapUint64(&seq, 0, uint64(s))
+	// Raise the counter to s; never lower it: another database opened earlier
+	// in this process may already have moved it, in either direction.
+	for {
+		cur := atomic.LoadUint64(&seq)
+		if cur >= uint64(s) || atomic.CompareAndSwapUint64(&seq, cur, uint64(s)) {
+			return
+		}
+	}
 }
 
 func Next() Seq {
